@@ -94,6 +94,7 @@ def check(runner, arrays, diff_idx, name, kinks=False, subsets=True, max_m=None)
             v("wrong-vjp", f"operand {k}: d out[{i}]/d in[{j}] library {Jl[i, j]:.8g} vs numerical {Jn[i, j]:.8g} (max abs diff {np.max(np.abs(Jl - Jn)):.3g})")
     if viol:
         return viol, info
+    info["rows"] = rows
     # linearity in g: all-ones and one dense mixed-sign g must give J^T g
     rg_all = [i in diff_idx for i in range(len(arrays))]
     for gname, g in (("ones", np.ones(y0.shape)), ("dense", values.dense_g(y0.shape))):
@@ -129,3 +130,37 @@ def check(runner, arrays, diff_idx, name, kinks=False, subsets=True, max_m=None)
                 if gr is None or not fd.close(np.asarray(gr.data, dtype=np.float64).reshape(-1), exp, 1e-9, 1e-11):
                     v("subset-grad-differs", f"requires_grad={rg}: operand {k} gradient differs from the all-operands run")
     return viol, info
+
+
+def check_layouts(runner_nocopy, arrays, diff_idx, name, rows, convs):
+    """the same operands handed over in other memory layouts (no copy): one dense-g backward must give J^T g"""
+    sg = harness.load()
+    viol = []
+    for lname, conv in convs:
+        alt = [conv(np.array(a, copy=True)) if np.asarray(a).dtype.kind == "f" else np.array(a, copy=True) for a in arrays]
+        rg = [i in diff_idx for i in range(len(arrays))]
+        try:
+            out, ts = runner_nocopy(alt, rg)
+            g = values.dense_g(out.shape)
+            out.backward(sg.Tensor(np.asarray(g, dtype=out.dtype if out.dtype.kind == "f" else np.float64)))
+        except harness.HarnessError:
+            raise
+        except Exception as e:
+            viol.append({"kind": f"{name}:layout-dependent", "detail": f"operands in {lname} layout: {type(e).__name__}: {str(e)[:80]}"}); continue
+        for k in diff_idx:
+            exp = rows[k].T @ np.asarray(g, dtype=np.float64).reshape(-1)
+            gr = ts[k].grad
+            if gr is None or not fd.close(np.asarray(gr.data, dtype=np.float64).reshape(-1), exp, 1e-9, 1e-11):
+                viol.append({"kind": f"{name}:layout-dependent", "detail": f"operands in {lname} layout: gradient of operand {k} differs from the contiguous run"}); break
+    return viol
+
+def fortran(a):
+    return np.asfortranarray(a) if a.ndim >= 2 else a
+
+def strided(a):
+    if a.ndim == 0: return a
+    big = np.zeros(a.shape[:-1] + (2 * a.shape[-1],), dtype=a.dtype)
+    big[..., ::2] = a
+    return big[..., ::2]
+
+LAYOUTS = (("fortran-order", fortran), ("strided-view", strided))
